@@ -15,17 +15,17 @@ import (
 )
 
 type Env struct {
-	v        *FnVC
-	vars     map[string]Term
-	st       State
-	old      *Env
-	results  []Term
-	atReturn bool
-	callee   bool // names resolve against callee parameters only (call site)
-	pos      token.Pos
-	entry    bool
-	depth    int
-	pkg      *ssa.Package
+	v         *FnVC
+	vars      map[string]Term
+	st        State
+	old       *Env
+	results   []Term
+	atReturn  bool
+	callee    bool // names resolve against callee parameters only (call site)
+	pos       token.Pos
+	entry     bool
+	depth     int
+	pkg       *ssa.Package
 	loopEntry State // state just before the enclosing loop was entered (for entry(e))
 	fallback  *Env  // for old()/entry(): local variables keep their current values
 }
@@ -40,14 +40,17 @@ func (v *FnVC) newEnvAt(st State, pos token.Pos) *Env {
 	return e
 }
 
-type specError struct{ msg string }
+type specError struct {
+	msg string
+	cl  *Clause
+}
 
 func (v *FnVC) specFail(cl *Clause, format string, args ...interface{}) {
 	msg := fmt.Sprintf(format, args...)
 	if cl != nil {
 		msg = fmt.Sprintf("%s:%d: %s (in %q)", cl.File, cl.Line, msg, cl.Text)
 	}
-	panic(specError{msg})
+	panic(specError{msg, cl})
 }
 
 func (v *FnVC) specBool(e Expr, env *Env, cl *Clause) string {
